@@ -43,6 +43,14 @@ CHECKS["C10"] = dict(
     design_ref="5/C10",
 )
 
+CHECKS["C15"] = dict(
+    category="fault_enumeration",
+    technique="deterministic simulation with fault injection: expected-log model vs decoded exports; simulated disk with create/ENOSPC-at-every-offset/short-write/EINTR/flush faults; /dev/full; configuration export of generated trees and all templates",
+    text="Log content: generated configurations with loggers and rule sets, fault-free or with one injected failure; the reference interpreter's expected log must equal the decoded JSON and CBOR exports. Export path: for each exported artefact (json, cbor, ron) the device-full fault is enumerated over every byte offset of the fault-free output, plus create, flush, short-write and EINTR faults on a simulated disk behind the cfg(mahf_verif) I/O seam: Ok(()) implies the bytes on disk decode to the expected content, transient faults must not fail the export; the same against the kernel's /dev/full without a hook. Configuration export: generated trees and all shipped templates serialise, show the pre-order sequence of components and parameters, equal their clone's, differ from a mutated configuration's. par_experiment's file set under simulated schedules and I/O faults.",
+    note="Sampling over logs/configurations; exhaustive over single ENOSPC offsets per artefact. The disk under faults is an in-memory stub; serde_json, ciborium, ron and std::fs are real. After an export returned Err nothing is claimed about the file.",
+    design_ref="5/C15",
+)
+
 NOT_APPLICABLE = [
     ("C04", "pure sequential container (Vec wrapper): no schedule, fault or cross-step state for a simulator to control; deciding it is input enumeration (DESIGN.md section 3)"),
     ("C09", "value algebra of two float wrappers: pure function of its inputs, nothing to simulate (DESIGN.md section 3)"),
